@@ -166,15 +166,8 @@ fn explore_type(ctx: &Ctx, cnt: &Cnt, r: &Reach, p: ElementType, tier: Tier) {
     // list_valid_sub_elements vs the specification listing, in the base state
     let listed = pe.list_valid_sub_elements();
     let listed_names: Vec<ElementName> = listed.iter().map(|i| i.element_name).collect();
-    let spec_names: Vec<ElementName> = {
-        let mut v2 = vec![];
-        for (n, _, mask, _) in p.sub_element_spec_iter() {
-            if v.compatible(mask) {
-                v2.push(n);
-            }
-        }
-        v2
-    };
+    // the harness's own enumeration (lookup of every element name, ordered by position in the specification)
+    let spec_names: Vec<ElementName> = subs.iter().map(|s| s.name).collect();
     if listed_names != spec_names {
         ctx.violation("listing|list_valid_sub_elements-differs-from-specification", ctx_json(&[], json!({"listed": listed_names.len(), "spec": spec_names.len()})));
     }
@@ -643,6 +636,9 @@ pub fn run(tier: Tier) -> i32 {
     let mut types_total = 0u64;
     for v in &versions {
         let r = reach(*v);
+        for (kind, t, n) in listing_lookup_discrepancies(&r) {
+            ctx.violation(format!("spec|{kind}"), json!({"version": format!("{:?}", r.version), "type": t, "name": n.to_str()}));
+        }
         // one element type per datatype (content model)
         let mut seen = HashSet::new();
         let reps: Vec<ElementType> = r.order.iter().copied().filter(|t| seen.insert(t.verif_ids().2)).collect();
